@@ -394,7 +394,7 @@ func startChild(batch string, start int, watchdog time.Duration) (exit int, stde
 	}
 	ef, _ := os.Create(errPath)
 	cmd := exec.Command("bash", "-c", `ulimit -s 1024; ulimit -v 3670016; exec "$0"`, exe)
-	cmd.Env = append(os.Environ(), "C27_CHILD="+batch, "C27_START="+strconv.Itoa(start), "GOTRACEBACK=all", "GOMAXPROCS=1")
+	cmd.Env = append(os.Environ(), "C27_CHILD="+batch, "C27_START="+strconv.Itoa(start), "GOTRACEBACK=all", "GOMAXPROCS=2")
 	cmd.Stdout, cmd.Stderr = ef, ef
 	cmd.SysProcAttr = &syscall.SysProcAttr{Pdeathsig: syscall.SIGKILL}
 	if err := cmd.Start(); err != nil {
@@ -577,7 +577,7 @@ func main() {
 			return
 		}
 
-		total := r.N(15000, 450000)
+		total := r.N(6000, 240000)
 		if v, err := strconv.Atoi(os.Getenv("C27_DEV_LIMIT")); err == nil && v > 0 {
 			total = v // development aid only: never set by ./check
 			r.Inconclusive("C27_DEV_LIMIT set: reduced workload")
